@@ -743,6 +743,10 @@ def _hash_term(x):
         # converse (different lanes => different hash) is an idealisation no property here relies on.
         lanes = [_hash_term(v) for v in x]
         return z3.Concat(*([z3.BitVecVal(_real_len(x), 8)] + lanes)) if lanes else z3.BitVecVal(0, 8)
+    if _real_isinstance(x, (type, str, bytes, type(None))):
+        # a concrete lane (e.g. the class of the object in hash((type(self), value, width))): its real hash in this process;
+        # only "same object => same lane, different object => different lane" is used, and every counterexample is replayed
+        return _u64(hash(x))
     raise EngineLimit("hash of %s in symbolic context" % type(x).__name__)
 
 
